@@ -13,7 +13,7 @@ from e2.symex import veq
 from e2.lemmas.vm import *
 from e2.lemmas import c11
 
-BOOKKEEPING = ["nested", "ctx", "input", "flow_stack", "loops", "special", "return_stack"]
+BOOKKEEPING = ["nested", "ctx", "input", "flow_stack", "loops", "special", "return_stack", "dict"]
 
 
 def failing_build(kind):
@@ -35,6 +35,7 @@ def failing_build(kind):
             code, dm = L.field(S, "State", "code"), L.field(S, "State", "debug_map")
             code.items.append(mk_sym(ex_.tc, "opcodes::Opcode", "leak_op"))
             dm.items.append(mk_sym(ex_.tc, "arcstr::Substr", "leak_tok"))
+            L.field(S, "State", "dict").items.append(mk_sym(ex_.tc, "state::DictEntry", "leak_word"))     # a word defined by the rejected source
         err = mk_sym(ex_.tc, "error::Xerr", "build_error")
         return Enum("Result<(), error::Xerr>", "Err", Struct("", {0: err}))
     return stub
@@ -52,6 +53,12 @@ def frame_lemma(kind, mode):
         for v in ("input",):
             vec = pre.vec(v)
             pre.pc.append(z3.ULE(vec.prefix[1], z3.BitVecVal(BIG, 64)))
+        # the debug map is parallel to the code (C17's code_emit lemma keeps it so)
+        pre.pc.append(pre.vec("debug_map").len_term() == pre.vec("code").len_term())
+        # no failed run is pending (that case: rerun lemmas; dropping its remainder is idempotent, so doing it for a
+        # source that is then rejected equals doing it for the next accepted one)
+        le = L.field(pre.S, "State", "last_error")
+        pre.pc.append(z3.Or(L.is_variant(le, "None"), z3.UGE(pre.ip.t, pre.vec("code").len_term()), pre.vec("nested").len_term() != 0))
         src = L.sym("arcstr::ArcStr", "src")
         m = Enum("state::ContextMode", mode, None)
         stub = failing_build(kind)
@@ -86,37 +93,55 @@ def frame_lemma(kind, mode):
     return body
 
 
-def rerun_lemma(L):
-    """compile; run fails at ip0; compile (open + close of a Compile context); the next run must not resume at ip0."""
-    pre = VmPre(L, opcode=None)
-    outs = L.run("fetch_and_run", [pre.xs], pre.pc, pre.roots())
-    n = 0
-    for o in outs:
-        if o.kind != "return" or o.value.variant != "Err":
-            continue
-        k = L.result_kind(o)
-        if k[1] == "ErrorMsg":
-            continue
-        n += 1
-        if n > 6:
-            break
-        xs1 = o.st.ghost["roots"]["xs"]
-        m = Enum("state::ContextMode", "Compile", None)
-        o2s = L.run("context_open", [xs1, m], list(o.st.pc), {"xs": xs1})
-        for o2 in o2s:
-            if o2.kind != "return" or o2.value.variant != "Ok":
+def ok_build(ex_, st, fr, callee, args):
+    """a build that succeeds and leaves nothing open (what it emitted is irrelevant here: it emits nothing)"""
+    return Enum("Result<(), error::Xerr>", "Ok", Struct("", {0: Unit()}))
+
+
+def rerun_lemma(failed):
+    """compile of the next line at top level. failed=True: the previous line stopped at a run-time error
+    (last_error set, ip inside the old code): its remainder must be skipped and its frames dropped.
+    failed=False: nothing failed, so code compiled earlier and not yet run must stay scheduled."""
+    def body(L):
+        pre = Pre(L, stack=[L.cell("a")])
+        code = pre.vec("code")
+        pre.pc.append(pre.vec("nested").len_term() == 0)
+        pre.pc.append(z3.ULT(pre.ip.t, code.len_term()))                     # is_running(): something of the old line is left
+        pre.pc.append(pre.vec("debug_map").len_term() == code.len_term())
+        vec = pre.vec("input")
+        pre.pc.append(z3.ULE(vec.prefix[1], z3.BitVecVal(BIG, 64)))
+        le = L.field(pre.S, "State", "last_error")
+        le.variant = "Some" if failed else "None"
+        L.field(pre.ctx, "Context", "mode").variant = "Eval"
+        src = L.sym("arcstr::ArcStr", "src")
+        L.ex.overrides[r"State::build0$|::build0$"] = ok_build
+        L.ex.overrides[r"Lex::new$|lex::.*::new$"] = lambda ex_, st, fr, c, a: mk_sym(ex_.tc, "lex::Lex", ex_.fresh_name("lex"))
+        try:
+            outs = L.run("build_from_source", [pre.xs, src, Enum("state::ContextMode", "Compile", None)], pre.pc, pre.roots())
+        finally:
+            L.ex.overrides.pop(r"State::build0$|::build0$", None)
+            L.ex.overrides.pop(r"Lex::new$|lex::.*::new$", None)
+        L.witness(outs, lambda o: o.kind == "return" and o.value.variant == "Ok", "the next line compiles")
+        cex = lambda m_: {"lines": ["compile 1 0 /", "run", "compile 5", "run", "stack"], "expect": [("no_panic",), ("last_result_in", ["ok"]), ("top_in", [("int", "5")])]}
+        for o in outs:
+            if o.kind != "return":
+                L.fail(o, "build_from_source must not panic: %s" % (o.msg or "")[:80])
                 continue
-            xs2 = o2.st.ghost["roots"]["xs"]
-            o3s = L.run("context_close", [xs2], list(o2.st.pc), {"xs": xs2})
-            for o3 in o3s:
-                if o3.kind != "return" or o3.value.variant != "Ok":
-                    continue
-                S3 = final_state(L, o3)
-                ip3 = L.field(L.field(S3, "State", "ctx"), "Context", "ip").t
-                L.require(o3, ip3 != pre.ip.t, "after a run-time failure, compiling the next line does not leave ip on the failed instruction (it would be re-executed)",
-                          cex=lambda m_: {"lines": ["compile 1 0 /", "run", "compile 5", "run", "stack"], "expect": [("no_panic",), ("last_result_in", ["ok"]), ("top_in", [("int", "5")])]})
-    if n == 0:
-        L.undecided.append((L.cur, "VACUOUS: no failing step found"))
+            if o.value.variant != "Ok":
+                continue
+            S1 = final_state(L, o)
+            ip1 = L.field(L.field(S1, "State", "ctx"), "Context", "ip").t
+            if failed:
+                L.require(o, z3.UGE(ip1, code.len_term()), "after a run-time failure, compiling the next line skips what is left of the failed line (it would be re-executed)", cex=cex)
+                for f, mark in (("return_stack", "rs_len"), ("loops", "ls_len"), ("special", "ss_ptr")):
+                    v1 = L.field(S1, "State", f)
+                    L.require(o, v1.len_term() == L.field(pre.ctx, "Context", mark).t, "after a run-time failure the failed line's %s entries are dropped" % f, cex=cex)
+                L.require(o, veq(L.ex, L.field(S1, "State", "data_stack"), pre.ds), "values on the data stack stay")
+            else:
+                L.require(o, ip1 == pre.ip.t, "without a failure, code compiled earlier and not yet run stays scheduled (compile; compile; run)")
+                for f in ("return_stack", "loops", "special", "data_stack"):
+                    L.require(o, veq(L.ex, L.field(S1, "State", f), L.field(pre.S, "State", f)), "without a failure compiling a line leaves %s alone" % f)
+    return body
 
 
 def run(L, tier, only=None):
@@ -126,7 +151,8 @@ def run(L, tier, only=None):
             if not only or kind in only or "frame" in only:
                 L.lemma("C10 %s failing build, %s" % (kind, mode), frame_lemma(kind, mode))
     if not only or "rerun" in only:
-        L.lemma("C10 failed run is not re-executed", rerun_lemma)
+        L.lemma("C10 failed run is not re-executed", rerun_lemma(True))
+        L.lemma("C10 pending code survives a compile when nothing failed", rerun_lemma(False))
     for fname, mk, exp in c11.SEALED:
         if fname in ("pop_flow", "take_first_cond_flow", "top_function_flow", "has_pending_flow"):
             if not only or fname in only or "sealed" in only:
